@@ -18,3 +18,5 @@ Definition C18_rep_host_unreachable : N := 4%N.
 Definition C18_rep_cmd_not_supported : N := 7%N.
 Definition C18_userpass_ok : N := 0%N.
 Definition C18_userpass_fail : N := 1%N.
+Definition C18_lower_extra : N := 304%N.
+Definition C18_lower_extra_count : N := 1%N.
